@@ -43,3 +43,16 @@ TWINS = [
     T("odt-row-iterator-not-equal-form", ODT, "        if child.tag == _TABLE_ROW_TAG:\n            yield child\n        else:\n            yield from _iter_table_rows(child)", "        if child.tag != _TABLE_ROW_TAG:\n            yield from _iter_table_rows(child)\n        else:\n            yield child"),
     T("epub-idref-test-explicit", EPUB, "        for itemref in spine_elem.findall(\"opf:itemref\", NS):\n            idref = itemref.get(\"idref\", \"\")\n            if idref:", "        for itemref in spine_elem.findall(\"opf:itemref\", NS):\n            idref = itemref.get(\"idref\", \"\")\n            if idref != \"\":"),
 ]
+
+# --- seeded changes kept under /verif/seeded (sub-agents saw only the property text); each must be reported by the named rule
+import os as _os
+from sa.selftest.harness import P as _P
+_SEEDS = _os.path.join(_os.path.dirname(_os.path.dirname(_os.path.dirname(_os.path.abspath(__file__)))), "seeded")
+SEEDED = [
+    ("C13-1", "C13-TRIM"),
+    ("C13-2", "C13-WALK"),
+    ("C13-3", "C13-SPINE"),
+    ("C13-4", "C13-WALK"),
+    ("C13-5", "C13-KEY"),
+]
+MUTANTS = list(MUTANTS) + [_P("seed-" + sid, _os.path.join(_SEEDS, sid, "patch.diff"), rule) for sid, rule in SEEDED if _os.path.exists(_os.path.join(_SEEDS, sid, "patch.diff"))]
